@@ -17,7 +17,7 @@ from ..world import World
 
 ID = "C11"
 LEVEL = "exploration"
-RULE = ("scenario = sslopt {cert_reqs absent/CERT_NONE/CERT_REQUIRED, check_hostname absent/True/False, ca_certs, "
+RULE = ("scenario = sslopt {cert_reqs absent/CERT_NONE/CERT_REQUIRED/CERT_OPTIONAL (for a client the same as REQUIRED), check_hostname absent/True/False, ca_certs, "
         "ca_cert_path, custom context, server_hostname} x WEBSOCKET_CLIENT_CA_BUNDLE {unset, file, directory} x server "
         "certificate {issued by the sim CA / by a foreign CA / self-signed} x requested name {matching, other, "
         "wildcard, IP} x {direct, HTTP CONNECT tunnel} x scheme {ws, wss}.  Oracle = independent predicate from the "
@@ -83,7 +83,7 @@ def expand(item, seed):
     if k == "grid":
         cert = item["cert"]
         for cr, ch, oa, ea, host, proxy in itertools.product(
-                (None, "NONE", "REQUIRED"), (None, True, False), ("none", "ca_file", "foreign_file", "ca_dir"),
+                (None, "NONE", "REQUIRED", "OPTIONAL"), (None, True, False), ("none", "ca_file", "foreign_file", "ca_dir"),
                 ("none", "ca_file", "ca_dir"), HOSTS, (False, True)):
             if oa != "none" and ea != "none" and ANCHORS[oa][0] != ANCHORS[ea][0]:
                 continue
@@ -106,7 +106,7 @@ def expand(item, seed):
     elif k == "sysstore":
         for cert in CERT_ISSUER:
             for host in HOSTS:
-                for cr, ch, oa in itertools.product((None, "NONE", "REQUIRED"), (None, True, False), ("none", "foreign_file")):
+                for cr, ch, oa in itertools.product((None, "NONE", "REQUIRED", "OPTIONAL"), (None, True, False), ("none", "foreign_file")):
                     yield _sc(cert=cert, host=host, cert_reqs=cr, check_hostname=ch, opt_anchor=oa, sys_store="sim_ca")
     elif k == "sslver":
         for ver in ("TLS", "TLSv1_2", "TLS_CLIENT"):
@@ -133,7 +133,7 @@ def expand(item, seed):
 
 def _gen_single(rng):
     sc = _sc(scheme=rng.choice(("wss", "wss", "wss", "ws")), host=rng.choice(list(HOSTS)), cert=rng.choice(list(CERT_ISSUER)),
-             cert_reqs=rng.choice((None, None, "NONE", "REQUIRED")), check_hostname=rng.choice((None, None, True, False)),
+             cert_reqs=rng.choice((None, None, "NONE", "REQUIRED", "OPTIONAL")), check_hostname=rng.choice((None, None, True, False)),
              opt_anchor=rng.choice(list(ANCHORS)), env_anchor=rng.choice(("none", "none", "ca_file", "ca_dir", "foreign_file")),
              proxy=rng.random() < 0.25, seed=rng.randrange(1 << 30))
     if sc["opt_anchor"] != "none" and sc["env_anchor"] != "none" and ANCHORS[sc["opt_anchor"]][0] != ANCHORS[sc["env_anchor"]][0]:
@@ -295,7 +295,7 @@ def _run_concurrent(sc, choices):
             st = steps[i]
             sslopt = {}
             if st.get("cert_reqs") is not None:
-                sslopt["cert_reqs"] = ssl.CERT_NONE if st["cert_reqs"] == "NONE" else ssl.CERT_REQUIRED
+                sslopt["cert_reqs"] = {"NONE": ssl.CERT_NONE, "OPTIONAL": ssl.CERT_OPTIONAL}.get(st["cert_reqs"], ssl.CERT_REQUIRED)
             if st.get("check_hostname") is not None:
                 sslopt["check_hostname"] = st["check_hostname"]
             if st.get("opt_anchor", "none") != "none":
@@ -367,7 +367,7 @@ def _run_one(sc, shared, index=0):
         if scheme not in ("ws", "wss") or host not in HOSTS or cert not in CERT_ISSUER:
             raise InvalidScenario("basic")
         cr, ch = sc.get("cert_reqs"), sc.get("check_hostname")
-        if cr not in (None, "NONE", "REQUIRED") or ch not in (None, True, False):
+        if cr not in (None, "NONE", "REQUIRED", "OPTIONAL") or ch not in (None, True, False):
             raise InvalidScenario("cert_reqs/check_hostname")
         oa, ea = sc.get("opt_anchor", "none"), sc.get("env_anchor", "none")
         if oa not in ANCHORS or ea not in ANCHORS:
@@ -430,7 +430,7 @@ def _run_one(sc, shared, index=0):
     w.net.listen("10.7.0.1", 3128, prox)
     sslopt = {}
     if cr is not None:
-        sslopt["cert_reqs"] = ssl.CERT_NONE if cr == "NONE" else ssl.CERT_REQUIRED
+        sslopt["cert_reqs"] = {"NONE": ssl.CERT_NONE, "OPTIONAL": ssl.CERT_OPTIONAL}.get(cr, ssl.CERT_REQUIRED)
     if ch is not None:
         sslopt["check_hostname"] = ch
     if oa != "none":
